@@ -161,13 +161,21 @@ def generate(tier, seed, casedir, variant):
                     if len(samples) < 2 and sub == ["a", "b"]:
                         samples.append(dict(jsonable(cfg), returned=terms))
                     cid += 1
+    # per-sample parameters in the non-stationary normalisation term: batch time i goes with parameter row i (oracle only)
+    import c05
+    try:
+        viol += c05.norm_param_batch_oracle(rng, 8 if tier == "quick" else 40)
+    except Exception as ex:
+        viol.append({"detail": f"normalisation term under a parameter batch raised {type(ex).__name__}: {str(ex)[:300]}", "case": {"what": "norm_param_batch"}})
     write_cases(casedir, "C12", "R_C12", variant, cases, chunk=100)
     return dict(meta=meta, oracle_violations=viol, evaluations=len(cases), distinct_nontrivial=len(nontrivial), samples=samples, distribution=dist,
-                rule="every subset of the equation parameters {a, b, c} as batched keys x observed-parameter subsets, for the ODE and the stationary loss (network reads b, equation reads a and c), with and without heterogeneity maps (a := h(p) a; c := h2(p) a + c, reading the caller's a; the equation's evaluate is also called directly), batches of 1..4 points; dynamic, initial-condition and observation terms compared; the caller's parameters must be left unchanged; the caller's own value of an overridden key is a float array, a Python int or an integer array; non-trivial = at least one batched key and more than one sample",
+                rule="every subset of the equation parameters {a, b, c} as batched keys x observed-parameter subsets, for the ODE and the stationary loss (network reads b, equation reads a and c), with and without heterogeneity maps (a := h(p) a; c := h2(p) a + c, reading the caller's a; the equation's evaluate is also called directly), batches of 1..4 points; dynamic, initial-condition and observation terms compared; the caller's parameters must be left unchanged; the caller's own value of an overridden key is a float array, a Python int or an integer array; plus the non-stationary normalisation term under a parameter batch against its definition (oracle only); non-trivial = at least one batched key and more than one sample",
                 oracle_checks=len(cases))
 
 
 def replay(rep, casedir, variant):
+    if rep["case"].get("what") == "norm_param_batch":
+        return generate("quick", rep.get("seed", 0), casedir, variant)
     cfg = unjson(rep["case"])
     terms, unchanged = evaluate(cfg)
     viol = [] if unchanged else [{"detail": "the caller's parameters were modified by evaluate", "case": rep["case"]}]
